@@ -130,7 +130,7 @@ func Load(repo string, harnessDir string) (*Interp, error) {
 	}}
 	in.initOK = map[string]bool{
 		"github.com/hslam/rpc": true, "github.com/hslam/code": true, "github.com/hslam/buffer": true,
-		"github.com/hslam/scheduler": true, "io": true, "github.com/hslam/socket": true,
+		"github.com/hslam/scheduler": true, "io": true, "github.com/hslam/socket": true, "context": true,
 	}
 	in.stubPkgs = map[string]bool{"github.com/hslam/log": true, "log": true, "fmt": true, "os": true}
 	registerSyncIntrinsics(in.intrinsics)
